@@ -1373,8 +1373,10 @@ class ProcessPoolExecutor(Executor):
 
         if executor_manager_thread_wakeup is not None:
             # Wake up queue management thread
+            # (use the local reference: a concurrent call to shutdown may
+            # have reset the attribute in the meantime)
             with self._shutdown_lock:
-                self._executor_manager_thread_wakeup.wakeup()
+                executor_manager_thread_wakeup.wakeup()
 
         if executor_manager_thread is not None and wait:
             # This locks avoids concurrent join if the interpreter
